@@ -97,6 +97,58 @@ func c03Run(c *Ctx) {
 		}
 	}
 	c.Count("rest_tokens_observed", int64(len(o.Rest)))
+	// the declaration is extended after the parser has been used (a plug-in registering its group late): a second
+	// vector that uses the new options inside the same command context must consume them, not pass them through
+	lateStage := ""
+	if c.K%4 == 1 {
+		ok := sc.Final.FC != nil
+		for _, cm := range sc.Exp.Chain[:len(sc.Exp.Chain)-1] {
+			if cm.Pos != nil {
+				ok = false // (an ancestor's positionals would take the command words of the second vector)
+			}
+		}
+		if ok {
+			late := &struct {
+				Late string `long:"zz-late"`
+				Flag []bool `long:"zz-late-flag"`
+			}{}
+			host := sc.Exp.Chain[r.Intn(len(sc.Exp.Chain))]
+			var aerr error
+			if host.Parent == nil {
+				_, aerr = b.P.AddGroup("Late Options", "", late)
+				lateStage = "parser"
+			} else {
+				_, aerr = host.FC.AddGroup("Late Options", "", late)
+				lateStage = "command"
+			}
+			if aerr != nil {
+				c.Violate("late-group:rejected", "AddGroup after the first parse failed: %v", aerr)
+				return
+			}
+			var args2 []string
+			for _, cm := range sc.Exp.Chain[1:] {
+				args2 = append(args2, cm.Name)
+			}
+			args2 = append(args2, "--zz-late", "lv", "--zz-late-flag")
+			var rest2 []string
+			var err2 error
+			if pi := safely(func() { rest2, err2 = b.P.ParseArgs(append([]string{}, args2...)) }); pi != nil {
+				c.Violate("late-group:panic", "ParseArgs(%q) after AddGroup panicked: %s", args2, pi.Value)
+				return
+			}
+			c.Count("parses", 1)
+			if _, isSentinel := err2.(*sentinelErr); err2 != nil && !isSentinel {
+				c.Violate("late-group:rejected:"+errTypeName(err2), "options of a group added to the %s after the first parse are refused in context %q: ParseArgs(%q) = %v", lateStage, sc.Final.Name, args2, err2)
+				return
+			}
+			if late.Late != "lv" || len(late.Flag) != 1 || len(rest2) != 0 {
+				c.Violate("late-group:not-consumed", "options of a group added to the %s after the first parse: ParseArgs(%q) stored (%q, %v) and returned %q; expected (\"lv\", [true]) and nothing left over", lateStage, args2, late.Late, late.Flag, rest2)
+				return
+			}
+		} else {
+			lateStage = ""
+		}
+	}
 	feat := ""
 	for _, it := range sc.Items {
 		switch it.Kind {
@@ -115,6 +167,9 @@ func c03Run(c *Ctx) {
 	pend := ""
 	if sc.Final.Pos != nil {
 		pend = fmt.Sprintf("pos%d", len(sc.Final.Pos.Args))
+	}
+	if lateStage != "" {
+		feat += "+late-group-on-" + lateStage
 	}
 	c.Held("intent/"+optionsString(opts&^flags.HelpFlag)+"/"+feat, fmt.Sprintf("rest=%d %s depth=%d", len(sc.Exp.Rest), pend, sc.Final.Depth))
 }
